@@ -13,6 +13,7 @@
  *   partial <cut> <flags> <ident|-> <blockalign> <style> <tree>   stop after <cut> API calls, leaving everything open
  *   faulta <k> <rep> ... / faulte <k> <rep> ...   like build; the k-th (and, rep=1, every later) alloc / emit call fails
  *   uenter <size>                           enter a user frame and leave it open
+ *   faultm <k> <rep> ...                    macro-level: the k-th allocation of the whole runtime fails (runtime built with FLATCC_ALLOC=h_malloc..)
  *   mem                                     footprint
  */
 #include "hcommon.h"
@@ -62,6 +63,14 @@ static node_t *parse(void)
     return x;
 }
 static void nfree(node_t *x) { int i; if (!x) return; for (i = 0; i < x->n; ++i) nfree(x->kid[i]); free(x->kid); free(x->kid_id); free(x->bytes); free(x); }
+
+/* ---- macro level allocation wrappers (runtime built with -DFLATCC_ALLOC=h_malloc ...) ---- */
+static long m_calls, m_fault_at, m_live; static int m_rep; static long m_fired;
+static int m_fail(void) { ++m_calls; if (m_fault_at && (m_calls == m_fault_at || (m_rep && m_calls > m_fault_at))) { ++m_fired; return 1; } return 0; }
+void *h_malloc(size_t n) { void *p; if (m_fail()) return 0; p = malloc(n); if (p) ++m_live; return p; }
+void *h_calloc(size_t nm, size_t n) { void *p; if (m_fail()) return 0; p = calloc(nm, n); if (p) ++m_live; return p; }
+void *h_realloc(void *q, size_t n) { void *p; if (m_fail()) return 0; p = realloc(q, n); if (p && !q) ++m_live; return p; }
+void h_free(void *p) { if (p) --m_live; free(p); }
 
 /* ---- wrapper emitter / allocator ---- */
 static flatcc_emitter_t E;
@@ -361,20 +370,31 @@ int main(void)
             printf(" uf=%zu\n", (size_t)B->user_frame_end); continue; }
         if (!strcmp(op, "clear")) {
             flatcc_builder_clear(B); if (custom) flatcc_emitter_clear(&E); have_B = 0;
-            printf("cleared live=%ld\n", live_blocks); continue;
+            printf("cleared live=%ld mlive=%ld\n", live_blocks, m_live); continue;
         }
         {
             int base = 1, rc; node_t *root; flatcc_builder_ref_t out = 0;
             cut_at = 0; fault_alloc_at = fault_emit_at = 0; fault_rep = 0; faults_fired = 0;
-            emit_calls = alloc_calls = 0;
+            emit_calls = alloc_calls = 0; m_calls = 0; m_fired = 0; m_fault_at = 0;
             if (!strcmp(op, "partial") && n > 6) { cut_at = atol(toks[1]); base = 2; }
             else if (!strcmp(op, "faulta") && n > 7) { fault_alloc_at = atol(toks[1]); fault_rep = atoi(toks[2]); base = 3; }
             else if (!strcmp(op, "faulte") && n > 7) { fault_emit_at = atol(toks[1]); fault_rep = atoi(toks[2]); base = 3; }
+            else if (!strcmp(op, "faultm") && n > 7) { m_fault_at = atol(toks[1]); m_rep = atoi(toks[2]); base = 3; }
             else if (strcmp(op, "build") || n < 6) { printf("bad-op\n"); continue; }
             T = toks; TN = n; TI = base + 4;
             root = parse();
             rc = run_build(atoi(toks[base]), toks[base + 1], atoi(toks[base + 2]), atoi(toks[base + 3]), root, &out);
             fault_alloc_at = fault_emit_at = 0;
+            if (!strcmp(op, "faultm")) {
+                /* the failing call may also be the final copy-out */
+                if (rc == 0) {
+                    size_t size = 0; void *buf = flatcc_builder_finalize_aligned_buffer(B, &size);
+                    m_fault_at = 0;
+                    if (!buf) printf("fail-finalize fired=%ld mallocs=%ld\n", m_fired, m_calls);
+                    else { printf("done fired=%ld mallocs=%ld ok %u ", m_fired, m_calls, (unsigned)flatcc_builder_get_buffer_alignment(B)); h_puthex(buf, size); printf("\n"); flatcc_builder_aligned_free(buf); }
+                } else { m_fault_at = 0; printf("fail fired=%ld mallocs=%ld\n", m_fired, m_calls); }
+                nfree(root); continue;
+            }
             if (rc == 1) printf("cut calls=%ld\n", api_calls);
             else if (rc == 2) printf("fail fired=%ld allocs=%ld emits=%ld\n", faults_fired, alloc_calls, emit_calls);
             else if (!strcmp(op, "build")) print_result();
